@@ -365,6 +365,24 @@ PROPS = {
                         "three-valued reading of Opt: Some(x) = what x matches, Any = everything, None = nothing; a selector list is a union, a compound an intersection, :not() a complement",
                         "a violated obligation is reported as VIOLATION only when one of the 35 native stylesheet probes (exact output) disagrees"],
     },
+    "C40": {
+        "engines": ["E2 mirsym+z3/cvc5"],
+        "e2": True,
+        "functions": [
+            ("rsass-cli Args::run", "../../rsass-cli/src/main.rs", r"fn run\(self\) -> Result<\(\), Error>"),
+            ("rsass-cli main", "../../rsass-cli/src/main.rs", r"^fn main\(\) -> ExitCode"),
+            ("rsass-cli From<StyleArg> for Style", "../../rsass-cli/src/main.rs", r"impl From<StyleArg> for Style"),
+            ("rsass::input::FsLoader::push_path", "input/fsloader.rs", r"pub fn push_path"),
+        ],
+        "bounds": {"quick": "Args::run for 0, 1 or 2 input files (loop unrolled; the loop body is the same beyond), with and without --load-path, every outcome (Ok / Err) of opening, compiling "
+                            "and writing each input; both --style values; main for both outcomes of run; MIR of the rsass-cli binary crate dumped from the current tree on every run"},
+        "outside": "clap's argument parsing (option names, defaults: only through the native probes); more than two inputs (same loop body); what the library computes (C38 and the other properties); "
+                   "the relative-load order inside FsLoader::find_file (C04); the text of the error after `Error: `",
+        "stubs": ["FsContext::for_path / transform / Stdout::write_all fork into Ok and Err; push_path / with_format / stdout are events", "<Args as Parser>::parse returns an arbitrary Args"],
+        "assumptions": ["rustc nightly MIR text = the code that is compiled", "mirsym's MIR subset semantics (/verif/mirsym/sym.py)", "z3 5.1 and cvc5 1.0.3 (path feasibility)",
+                        "fmt::Arguments template bytes of the pinned nightly (n < 0x80: n literal bytes, 0xC0: next argument)",
+                        "a violated obligation is reported as VIOLATION only when one of the 19 native probes (the real `rsass` binary against compile_scss_path, 5 formats, 1..3 files, failing inputs, --load-path layouts) disagrees"],
+    },
     "C18": {
         "engines": ["E2 mirsym+z3/cvc5"],
         "e2": True,
